@@ -8,40 +8,90 @@
 //        beyond it (the machine's debug assertions and slice indexing would panic) and the static bounds are not below
 //        the obvious lower bound (the largest intermediate type of a comp).
 use crate::jet::{Core, CoreEnv};
-use crate::node::{ConstructNode, CoreConstructible, Inner, RedeemNode, WitnessConstructible};
+use crate::node::{ConstructNode, CoreConstructible, DisconnectConstructible, Inner, RedeemNode, WitnessConstructible};
 use crate::types::{self, Final};
-use crate::{BitMachine, Value, Word};
+use crate::{BitMachine, Cmr, FailEntropy, Value, Word};
 use std::sync::Arc;
 
 type N<'b> = Arc<ConstructNode<'b>>;
 
+/// what the big-step semantics assign to a program on an input
+enum Outcome {
+    Val(Value),
+    /// the semantics FAIL: an assertion reaches its hidden side, or a fail node is reached
+    Fails,
+    /// outside the fragment this evaluator implements (the execution is skipped)
+    Unsupported,
+}
+use Outcome::{Fails, Unsupported, Val};
+
+macro_rules! ev {
+    ($e:expr) => {
+        match $e {
+            Val(v) => v,
+            other => return other,
+        }
+    };
+}
+macro_rules! opt {
+    ($e:expr) => {
+        match $e {
+            Some(v) => v,
+            None => return Unsupported,
+        }
+    };
+}
+
 /// denotational semantics of the core combinators on values
-fn eval(node: &RedeemNode, input: &Value) -> Option<Value> {
+fn eval(node: &RedeemNode, input: &Value) -> Outcome {
     let ar = node.arrow();
-    Some(match node.inner() {
+    Val(match node.inner() {
         Inner::Iden => input.clone(),
         Inner::Unit => Value::unit(),
-        Inner::InjL(t) => Value::left(eval(t, input)?, Arc::clone(ar.target.as_sum()?.1)),
-        Inner::InjR(t) => Value::right(Arc::clone(ar.target.as_sum()?.0), eval(t, input)?),
-        Inner::Take(t) => eval(t, &input.as_product()?.0.to_value())?,
-        Inner::Drop(t) => eval(t, &input.as_product()?.1.to_value())?,
-        Inner::Comp(s, t) => eval(t, &eval(s, input)?)?,
-        Inner::Pair(s, t) => Value::product(eval(s, input)?, eval(t, input)?),
+        Inner::InjL(t) => Value::left(ev!(eval(t, input)), Arc::clone(opt!(ar.target.as_sum()).1)),
+        Inner::InjR(t) => Value::right(Arc::clone(opt!(ar.target.as_sum()).0), ev!(eval(t, input))),
+        Inner::Take(t) => ev!(eval(t, &opt!(input.as_product()).0.to_value())),
+        Inner::Drop(t) => ev!(eval(t, &opt!(input.as_product()).1.to_value())),
+        Inner::Comp(s, t) => ev!(eval(t, &ev!(eval(s, input)))),
+        Inner::Pair(s, t) => Value::product(ev!(eval(s, input)), ev!(eval(t, input))),
         Inner::Case(s, t) => {
-            let (sum, c) = input.as_product()?;
+            let (sum, c) = opt!(input.as_product());
             if let Some(a) = sum.as_left() {
-                eval(s, &Value::product(a.to_value(), c.to_value()))?
+                ev!(eval(s, &Value::product(a.to_value(), c.to_value())))
             } else {
-                eval(t, &Value::product(sum.as_right()?.to_value(), c.to_value()))?
+                ev!(eval(t, &Value::product(opt!(sum.as_right()).to_value(), c.to_value())))
             }
+        }
+        // an assertion: the visible branch runs, the hidden side fails
+        Inner::AssertL(s, _) => {
+            let (sum, c) = opt!(input.as_product());
+            match sum.as_left() {
+                Some(a) => ev!(eval(s, &Value::product(a.to_value(), c.to_value()))),
+                None => return Fails,
+            }
+        }
+        Inner::AssertR(_, t) => {
+            let (sum, c) = opt!(input.as_product());
+            match sum.as_right() {
+                Some(b) => ev!(eval(t, &Value::product(b.to_value(), c.to_value()))),
+                None => return Fails,
+            }
+        }
+        Inner::Fail(_) => return Fails,
+        // disconnect s t : A -> B x D  with  s : 2^256 x A -> B x C,  t : C -> D: s receives the commitment root of t
+        Inner::Disconnect(s, t) => {
+            let root = Value::u256(t.cmr().to_byte_array());
+            let bc = ev!(eval(s, &Value::product(root, input.clone())));
+            let (b, c) = opt!(bc.as_product());
+            Value::product(b.to_value(), ev!(eval(t, &c.to_value())))
         }
         Inner::Witness(v) => v.clone(),
         Inner::Jet(j) if format!("{}", j) == "eq_8" => {
-            let (a, b) = input.as_product()?;
+            let (a, b) = opt!(input.as_product());
             Value::u1((a.to_value() == b.to_value()) as u8)
         }
         Inner::Word(w) => w.as_value().clone(),
-        _ => return None,
+        _ => return Unsupported,
     })
 }
 
@@ -138,6 +188,8 @@ fn programs<'b>(ctx: &types::Context<'b>, depth: usize) -> Vec<(String, N<'b>)> 
 fn c05_machine_semantics_replay() {
     let mut fails: Vec<String> = Vec::new();
     let mut tested = 0usize;
+    let mut n_fail_expected = 0usize;
+    let mut n_disconnect = 0usize;
     // every program is built in its own inference context: (builder index) -> program
     let n_leaf = types::Context::with_context(|ctx| programs(&ctx, 2).len());
     let mut shapes: Vec<(usize, usize, usize)> = Vec::new(); // (kind, i, j)
@@ -157,6 +209,17 @@ fn c05_machine_semantics_replay() {
             shapes.push((2, i, j)); // case over a word-selected sum
         }
     }
+    // disconnect (three shapes of the left branch), assertions with the visible / the hidden side selected, fail nodes
+    for i in 0..n_leaf.min(24) {
+        for j in 0..n_leaf.min(10) {
+            shapes.push((4, i, j));
+        }
+    }
+    for i in 0..n_leaf.min(16) {
+        for j in 0..8 {
+            shapes.push((5, i, j));
+        }
+    }
     for (kind, i, j) in shapes {
         types::Context::with_context(|ctx| {
             let ps = programs(&ctx, 2);
@@ -171,6 +234,52 @@ fn c05_machine_semantics_replay() {
                     Ok(c) => (format!("comp ({}) ({})", ps[i].0, ps[j].0), c),
                     Err(_) => return,
                 },
+                4 => {
+                    // disconnect s t, with s one of: pair unit (drop iden) [C = A], pair (take iden) (drop iden) [B = the root],
+                    // pair (drop x) (take iden) [C = 2^256]; t = ps[i]
+                    let t = &ps[i];
+                    let s_ = match j % 3 {
+                        0 => N::pair(&N::unit(&ctx), &N::drop_(&N::iden(&ctx))),
+                        1 => N::pair(&N::take(&N::iden(&ctx)), &N::drop_(&N::iden(&ctx))),
+                        _ => N::pair(&N::drop_(&ps[j].1), &N::take(&N::iden(&ctx))),
+                    };
+                    let s_ = match s_ {
+                        Ok(x) => x,
+                        Err(_) => return,
+                    };
+                    match N::disconnect(&s_, &Some(Arc::clone(&t.1))) {
+                        Ok(d) => (format!("disconnect (shape {} of {}) ({})", j % 3, ps[j].0, t.0), d),
+                        Err(_) => return,
+                    }
+                }
+                5 => {
+                    // comp (pair sel unit) A  with A an assertion or a case against a fail node; sel picks the visible or the hidden side
+                    let x = &ps[i];
+                    let left_selected = j % 2 == 0;
+                    let sel = if left_selected { N::injl(&N::const_word(&ctx, Word::u8(0x3c))) } else { N::injr(&N::const_word(&ctx, Word::u2(1))) };
+                    let input = match N::pair(&sel, &N::unit(&ctx)) {
+                        Ok(p) => p,
+                        Err(_) => return,
+                    };
+                    let hidden: Cmr = ps[(i + 1) % ps.len()].1.cmr();
+                    let mut entropy = [0u8; 64];
+                    entropy[0] = i as u8;
+                    entropy[63] = j as u8;
+                    let (what, a) = match j / 2 {
+                        0 => ("assertl (take x) #", N::assertl(&N::take(&x.1), hidden)),
+                        1 => ("assertr # (take x)", N::assertr(hidden, &N::take(&x.1))),
+                        2 => ("case (take x) fail", N::case(&N::take(&x.1), &N::fail(&ctx, FailEntropy::from_byte_array(entropy)))),
+                        _ => ("case fail (take x)", N::case(&N::fail(&ctx, FailEntropy::from_byte_array(entropy)), &N::take(&x.1))),
+                    };
+                    let a = match a {
+                        Ok(a) => a,
+                        Err(_) => return,
+                    };
+                    match N::comp(&input, &a) {
+                        Ok(c) => (format!("comp (pair ({}) unit) ({}) with x = {}", if left_selected { "injl 0x3c" } else { "injr 0b01" }, what, x.0), c),
+                        Err(_) => return,
+                    }
+                }
                 _ => {
                     // comp (pair (injl/injr src) unit) (case (take x) (take y)) with x = ps[i] and y = ps[j]
                     let sel = if (i + j) % 2 == 0 { N::injl(&N::const_word(&ctx, Word::u8(0x3c))) } else { N::injr(&N::const_word(&ctx, Word::u2(1))) };
@@ -192,27 +301,36 @@ fn c05_machine_semantics_replay() {
                 Ok(r) => r,
                 Err(_) => return,
             };
-            if redeem.arrow().source.bit_width() > 64 || redeem.arrow().target.bit_width() > 256 {
+            if redeem.arrow().source.bit_width() > 64 || redeem.arrow().target.bit_width() > 600 {
                 return;
             }
             let mut inputs = Vec::new();
             values(&redeem.arrow().source, &mut inputs, 6);
             for input in inputs {
                 let expect = match eval(&redeem, &input) {
-                    Some(v) => v,
-                    None => continue,
+                    Unsupported => continue,
+                    other => other,
                 };
                 tested += 1;
+                if name.starts_with("disconnect") {
+                    n_disconnect += 1;
+                }
+                if matches!(expect, Fails) {
+                    n_fail_expected += 1;
+                }
                 let (r2, i2) = (Arc::clone(&redeem), input.clone());
-                let got = std::panic::catch_unwind(std::panic::AssertUnwindSafe(move || {
-                    let mut mac = BitMachine::for_program(&r2).ok()?;
-                    mac.input(&i2).ok()?;
-                    mac.exec(&r2, &CoreEnv::new()).ok()
+                // Ok(Ok(v)): ran; Ok(Err(..)): the machine refused the program / input or the execution failed
+                let got = std::panic::catch_unwind(std::panic::AssertUnwindSafe(move || -> Result<Value, String> {
+                    let mut mac = BitMachine::for_program(&r2).map_err(|e| format!("for_program: {}", e))?;
+                    mac.input(&i2).map_err(|e| format!("input: {}", e))?;
+                    mac.exec(&r2, &CoreEnv::new()).map_err(|e| format!("exec: {}", e))
                 }));
-                match got {
-                    Err(_) => fails.push(format!("`{}` on input {}: the Bit Machine PANICS (a machine sized from the static bounds {:?})", name, input, redeem.bounds())),
-                    Ok(None) => fails.push(format!("`{}` on input {}: the Bit Machine refuses or fails, the semantics give {}", name, input, expect)),
-                    Ok(Some(v)) if v != expect => fails.push(format!("`{}` on input {}: the Bit Machine returns {}, the semantics give {}", name, input, v, expect)),
+                match (got, expect) {
+                    (Err(_), _) => fails.push(format!("`{}` on input {}: the Bit Machine PANICS (a machine sized from the static bounds {:?})", name, input, redeem.bounds())),
+                    (Ok(Err(e)), Val(v)) => fails.push(format!("`{}` on input {}: the Bit Machine refuses or fails ({}), the semantics give {}", name, input, e, v)),
+                    (Ok(Ok(v)), Val(w)) if v != w => fails.push(format!("`{}` on input {}: the Bit Machine returns {}, the semantics give {}", name, input, v, w)),
+                    (Ok(Ok(v)), Fails) => fails.push(format!("`{}` on input {}: the Bit Machine returns {}, but the semantics FAIL (hidden side of an assertion / fail node)", name, input, v)),
+                    (Ok(Err(e)), Fails) if !e.starts_with("exec:") => fails.push(format!("`{}` on input {}: expected a failing execution, got {}", name, input, e)),
                     _ => {}
                 }
                 if fails.len() >= 8 {
@@ -224,11 +342,11 @@ fn c05_machine_semantics_replay() {
             break;
         }
     }
-    println!("TESTED: {} executions", tested);
+    println!("TESTED: {} executions, {} of them expected to fail, {} of disconnect programs", tested, n_fail_expected, n_disconnect);
     for f in &fails {
         println!("CEX: {}", f);
     }
-    assert!(tested > 500, "the enumeration is too small to mean anything");
+    assert!(!fails.is_empty() || (tested > 900 && n_fail_expected > 20 && n_disconnect > 50), "the enumeration is too small to mean anything");
     assert!(fails.is_empty(), "{} failing execution(s)", fails.len());
     let _ = Core::Verify;
 }
